@@ -934,6 +934,8 @@ pub fn main(args: &util::Args) {
             max_depth: 1 + i % 3,
             effects: true,
             wildcard_arrays: false,
+            nested_patterns: i % 4 == 1,
+            ..Default::default()
         };
         let (src, _) = crate::progen::gen_program(&mut rng, cfg);
         let id = format!("prog:{}:{}", args.seed, i);
